@@ -86,7 +86,7 @@ CHECKS["C11"] = dict(
     note="Component internals are abstracted to lifecycle states here; the per-component protocol is proved in LcProto.v (C12). Fairness is needed to reach quiescence.",
     design="6/C11", technique="Coq proof (safety invariant over all action sequences, measure, quiescence theorem on trees of any shape) + shutdown-point enumeration in virtual time")
 CHECKS["C12"] = dict(
-    text="go-lifecycle protocol LTS (Shutdown callers, WatchContext, WatchChannel, run loop) by the closed-set technique: no_double_shutdown (ShutdownInitiated at most once on every schedule: no close-of-closed-channel panic), no_goroutine_left (from every stopping state the state with run loop exited, Done closed and every helper goroutine and blocked caller gone is reachable by their own steps), close_after_done_returns; tree termination (C11 measure + quiescence); lister/ticker/worker termination and emptiness after Done (Lister.v). Correspondence: shutdown-point enumeration on real trees in virtual time with triggers {Close, 3x Close, cancel, list error}, Close swept over time with slow lists / hanging or failing watch connects; synctest deadlock detection = 'does not hang'; goroutine inventory by library frames back to baseline; every API of every stopped node probed (returns ErrNotRunning or a result).",
+    text="go-lifecycle protocol LTS (Shutdown callers, WatchContext, WatchChannel, run loop) by the closed-set technique: no_double_shutdown (ShutdownInitiated at most once on every schedule: no close-of-closed-channel panic), no_goroutine_left (from every stopping state the state with run loop exited, Done closed and every helper goroutine and blocked caller gone is reachable by their own steps), close_after_done_returns; tree termination (C11 measure + quiescence); lister/ticker/worker termination and emptiness after Done (Lister.v); the publisher / subscription / reaper lifetime protocol one step per channel operation (PubTerm.v): publisher done => every subscription goroutine and reaper it started has returned, no reaper ever blocked on the unsubscribe channel with nobody receiving, from every reachable state the library's own steps reach done without any user of a subscription doing anything, and the tempting variant (delete the table entry when a send fails) is refuted with a trace. Correspondence: seeded Subscribe/Close/Send/Stop sequences on a real source publisher, settled after each call, against the extracted PubTerm.urun (call results, every Done(), goroutine inventory at the baseline where the model says nothing is live; the compared states are proved reachable and quiescent); one library goroutine held at its k-th log call for every k; real-time subscribe/close stress under a publishing source; shutdown-point enumeration on real trees in virtual time with triggers {Close, 3x Close, cancel, list error}, Close swept over time with slow lists / hanging or failing watch connects; synctest deadlock detection = 'does not hang'; goroutine inventory by library frames back to baseline; every API of every stopped node probed (returns ErrNotRunning or a result).",
     note="PARTIAL: wall-clock bounds and the goroutine inventory are observed, not proved. Proviso: List/Watch honour context cancellation.",
     design="6/C12", technique="Coq proof (closed-set reachability on the lifecycle protocol, termination measure) + shutdown-point enumeration with deadlock and goroutine-inventory oracles")
 
